@@ -574,7 +574,9 @@ func (w *World) Step(op Op) bool {
 				prop += "/C19/C03"
 			}
 			note := "real node panicked (" + w.Node.Panic + ") on a request a correct cluster can send"
-			if w.Node.Panic == "deadlock.shutdown" {
+			if w.Node.Panic == "deadlock.snapshot" {
+				note = "real node: the snapshot goroutine never handed its result to the state loop (" + w.Node.Panic + "): no `case t := <-r.snapTakenCh` will ever fire, the TakeSnapshot task never completes and Raft.release waits for ever at shutdown"
+			} else if w.Node.Panic == "deadlock.shutdown" {
 				note = "real node cannot shut down (" + w.Node.Panic + "): the state loop's way out (release of the role, then Raft.release, which waits for the result of a snapshot in flight) never returns within the watchdog: Shutdown never finishes and the pending tasks are never completed"
 			} else if strings.HasPrefix(w.Node.Panic, "deadlock") {
 				note = "real node is deadlocked (" + w.Node.Panic + "): after this operation the fsm goroutine never answers the state loop's lastApplied() — the call a GetInfo task makes — within the watchdog; the state loop waits for the fsm goroutine, which itself is blocked"
